@@ -181,7 +181,7 @@ ControlResponse parse_response(NativeSocket socket, const ControlTransferProgres
                 break;
             }
         } else {
-            response.fields[key] = value;
+            response.fields[key] = unescape_control_value(value);
         }
     }
 
